@@ -137,7 +137,7 @@ structure ProbeDict (α : Type) where
   table : Option (List α)
   deriving Repr
 
-/-- `newInt32Dictionary` (dictionary_int32.go:16-26): the page as read, no table -/
+/-- `newInt32Dictionary` (dictionary_int32.go:18-28): the page as read, no table -/
 def probeNew (page : List α) : ProbeDict α := { values := page, table := none }
 
 /-- MIRROR of `if d.table == nil { d.init(indexes) }` (dictionary_int32.go:42-52, :70-72): `init`
@@ -154,8 +154,8 @@ def appendLoop (values : List α) : List α → List Nat → List α
   | _, _ => values
 
 /-- MIRROR of the chunk loop of `int32Dictionary.insert` (dictionary_int32.go:76-86; the same code
-    in dictionary_{int64,float,double,uint32,uint64}.go and twice in dictionary_be128.go:56-73,
-    :85-99): `ProbeArray` numbers every key of the chunk (a known key keeps its number, a new one
+    in dictionary_{int64,float,double,uint32,uint64}.go and twice in dictionary_be128.go:52-73,
+    :87-105): `ProbeArray` numbers every key of the chunk (a known key keeps its number, a new one
     gets the table's size) and returns how many were new; only then the append loop runs -/
 def probeChunks (values table : List α) : List (List α) → (List α × List α) × List Nat
   | [] => ((values, table), [])
@@ -501,7 +501,7 @@ structure BoolDict where
 /-- a boolean dictionary created empty (`newBooleanDictionary` with no values: both indexes -1) -/
 def boolNew : BoolDict := { values := [], idxFalse := none, idxTrue := none }
 
-/-- MIRROR of `booleanDictionary.insert` (dictionary_boolean.go:68-93) -/
+/-- MIRROR of `booleanDictionary.insert` (dictionary_boolean.go:67-92) -/
 def boolInsert (g : BoolDict) (chunks : List (List Bool)) : BoolDict × List Nat :=
   let g1 : BoolDict := match g.idxFalse with
     | some _ => g
